@@ -157,6 +157,48 @@ def standalone(run, relic, d):
                       "standalone sign with an unwritable audit file exited 0", None)
 
 
+BROKER_MIX = ["ack", "nack", "ack-late", "drop-after-publish", "ack", "connclose-after-publish", "chanclose-after-publish", "declare-refused",
+              "select-refused", "auth-refused", "drop-at-handshake", "drop-after-declare", "ack"]
+ANEG = [("NoConfirmMode", "PreparedBeforePublish"), ("FireAndForget", "OkOnlyIfAcked"), ("IgnoreNack", "OkOnlyIfAcked"), ("ClosedIsAck", "OkOnlyIfAcked"),
+        ("LeakConnection", "ClosedAtEnd"), ("PublishFirst", "PreparedBeforePublish")]
+
+
+def amqp_publisher(run, vh, d, t):
+    """AmqpPublish.tla: the publisher with confirms against every broker behaviour; TLC + both bindings."""
+    r = run_tlc("AmqpPublish_MC", "AmqpPublish_MC.cfg", timeout=300, want_beh=False)
+    tlc_must_pass(r, "AmqpPublish_MC")
+    run.add_tlc(r, "AmqpPublish mc (11 broker behaviours; liveness Terminates)")
+    for v, inv in ANEG:
+        tlc_must_fail(run_tlc("AmqpPublish_MC", f"AmqpPublish_Neg_{v}.cfg", timeout=300, want_beh=False, workers=1), v, expect=inv)
+    run.cov["negative_controls"] = run.cov.get("negative_controls", []) + [v for v, _ in ANEG]
+    g = run_tlc("AmqpPublish_Gen", "AmqpPublish_Gen.cfg", timeout=300)
+    tlc_must_pass(g, "AmqpPublish_Gen")
+    exp = {json.dumps(b, sort_keys=True): b for b in g.beh}
+    if len({b["kind"] for b in exp.values()}) != 11 or len(exp) != 11:
+        raise NoVerdict(f"AmqpPublish: {len(exp)} terminal states for 11 broker behaviours (one outcome each expected)")
+    p = os.path.join(d, "amqp-exp.jsonl")
+    tp = os.path.join(d, "amqp-trace.ndjson")
+    with open(p, "w") as f:
+        for b in exp.values():
+            f.write(json.dumps(b) + "\n")
+    reps = 6 if t == "quick" else 40
+    o = parse_vh_json(run_vh(vh, ["amqp-publish", p, str(reps), tp], env={"VERIF_TMP": d}, timeout=1200), "amqp-publish")
+    absorb(run, o)
+    if o["extra"].get("runs") != 11 * reps and not o["failures"]:
+        raise NoVerdict(f"amqp-publish ran {o['extra']}")
+    lines = [json.loads(l) for l in open(tp)]
+    acc, consumed, total, res = validate_trace("AmqpPublish_Trace", "AmqpPublish_Trace.cfg", lines, timeout=600)
+    run.cov["traces_validated_against_impl"] += 11 * reps
+    if not acc:
+        at = lines[max(0, (consumed or 1) - 1)] if lines else {}
+        kind = next((l["kind"] for l in reversed(lines[:consumed or 1]) if l.get("ev") == "Begin"), "?")
+        inv = (res.violated or "event not allowed")
+        run.violation({"engine": "amqp-publish-trace", "kind": kind, "invariant": str(inv)},
+                      f"AmqpPublish_Trace rejects the publisher's run against broker behaviour {kind} at event {consumed}/{total} ({at.get('ev')}): {inv}",
+                      {"events": lines[max(0, (consumed or 1) - 12):(consumed or 1) + 2]})
+    run.cov["amqp_runs"] = 11 * reps
+
+
 def run(t):
     run = Run("C06", "model_checking", t)
     vh = build_vh()
@@ -183,7 +225,12 @@ def run(t):
                 ("file-isdir", ["-audit", "isdir", "-n", "20", "-c", "4", "-verify=false"]),
                 ("file-devfull", ["-audit", "devfull", "-n", "20", "-c", "4", "-verify=false"]),
                 ("amqp-refused", ["-audit", "none", "-amqp", "refused", "-n", "20", "-c", "4", "-verify=false"]),
-                ("amqp-refused+file", ["-audit", "ok", "-amqp", "refused", "-n", "20", "-c", "4", "-verify=false"])]
+                ("amqp-refused+file", ["-audit", "ok", "-amqp", "refused", "-n", "20", "-c", "4", "-verify=false"]),
+                # a scripted broker: connection i behaves as the i-th kind of the list (cyclically)
+                ("amqp-broker-ack+file", ["-audit", "ok", "-amqp", "broker:ack,ack-late", "-n", "40", "-c", "4"]),
+                ("amqp-broker-mixed+file", ["-audit", "ok", "-amqp", "broker:" + ",".join(BROKER_MIX), "-n", "66", "-c", "6", "-verify=false"]),
+                ("amqp-broker-mixed", ["-audit", "none", "-amqp", "broker:" + ",".join(reversed(BROKER_MIX)), "-n", "44", "-c", "4", "-verify=false"]),
+                ("amqp-broker-ack+file-devfull", ["-audit", "devfull", "-amqp", "broker:ack", "-n", "12", "-c", "3", "-verify=false"])]
         if t == "thorough":
             scen += [(f"file-ok-{i}", ["-audit", "ok", "-n", "150", "-c", "16", "-cache", "1", "-rate", "200"]) for i in range(3)]
         results = {}
@@ -203,6 +250,7 @@ def run(t):
                 run.sample([{k: v for k, v in e.items() if v not in ("", [], False, 0)} for e in lines[1:7]])
         # the publisher itself under concurrency (32 goroutines through signinit.PublishAudit): each record once, intact, unmixed
         absorb(run, parse_vh_json(run_vh(vh, ["audit-stress", "32", "150" if t == "quick" else "1500"], env={"VERIF_TMP": d}, timeout=900), "audit-stress"))
+        amqp_publisher(run, vh, d, t)
         strace_appenders(run, vh, d, 60 if t == "quick" else 300, 8 if t == "quick" else 32)
         standalone(run, relic, d)
     finally:
